@@ -348,7 +348,30 @@ def run_sessions(plan, tr):
 # ------------------------------------------------------------------------------------------------ trees
 
 
-def ref_check_script_path(tx_model, spent, witness, label):
+def ref_timelock_prefix(script):
+    """(value, opcode, rest of script) when the script starts with <number> OP_CLTV/OP_CSV OP_DROP, else None; value None = not a minimal script number"""
+    if not script:
+        return None
+    b0 = script[0]
+    if 0x51 <= b0 <= 0x60:
+        val, p = b0 - 0x50, 1
+    elif 1 <= b0 <= 5 and len(script) >= 1 + b0:
+        data = script[1 : 1 + b0]
+        p = 1 + b0
+        mag = int.from_bytes(data[:-1] + bytes([data[-1] & 0x7F]), "little")
+        val = -mag if data[-1] & 0x80 else mag
+        if (data[-1] & 0x7F) == 0 and (len(data) == 1 or not data[-2] & 0x80):
+            val = None  # non-minimal (includes negative zero)
+        elif len(data) == 1 and 1 <= data[0] <= 16:
+            val = None  # must have been OP_1..OP_16
+    else:
+        return None
+    if len(script) < p + 2 or script[p] not in (0xB1, 0xB2) or script[p + 1] != 0x75:
+        return None
+    return val, script[p], script[p + 2 :]
+
+
+def ref_check_script_path(tx_model, spent, witness, label, expect_lock=None):
     """Reference validation of a taproot script-path spend of a MuSig leaf (<x> CHECKSIG) or a k-of-n CHECKSIGADD leaf."""
     script = witness[-2]
     cb = witness[-1]
@@ -365,6 +388,27 @@ def ref_check_script_path(tx_model, spent, witness, label):
     if q is None or secp.xonly(q) != spent[0][1][2:] or (q[1] & 1) != par:
         return False, "control block does not commit to the output key"
     stack = witness[:-2]
+    # optional timelock prefix: <n> OP_CHECKLOCKTIMEVERIFY|OP_CHECKSEQUENCEVERIFY OP_DROP (BIP65 / BIP112 against the spending transaction)
+    pre = ref_timelock_prefix(script)
+    if pre is not None:
+        val, op, script = pre
+        if val is None:
+            return False, "timelock operand is not a minimally encoded number"
+        if val < 0:
+            return False, "negative timelock operand"
+        if expect_lock is not None and (op, val) != expect_lock:
+            return False, f"timelock operand {val} (opcode {op:#x}) is not the requested one {expect_lock}"
+        seq = tx_model["ins"][0]["sequence"]
+        if op == 0xB1:
+            lt = tx_model["locktime"]
+            if (val < 500000000) != (lt < 500000000) or val > lt or seq == 0xFFFFFFFF:
+                return False, "BIP65 condition not met by the spending transaction"
+        elif not val & (1 << 31):
+            mask = 0x0040FFFF
+            if tx_model["version"] < 2 or seq & (1 << 31) or (val & (1 << 22)) != (seq & (1 << 22)) or (val & mask) > (seq & mask):
+                return False, "BIP112 condition not met by the spending transaction"
+    elif expect_lock is not None:
+        return False, "leaf script carries no timelock although one was requested"
     # parse the two templates
     if len(script) == 34 and script[0] == 32 and script[33] == 0xAC:
         if len(stack) != 1:
@@ -418,21 +462,42 @@ def run_tree(plan, tr):
     if plan.get("kind") in kinds:
         kinds = [plan["kind"]]
     out = {"mode": "tree", "n": n, "k": k, "subset": subset, "kinds": kinds, "results": []}
+    # the tree the coins are sent to may be a time-locked recovery variant and/or one of the composite trees
+    targs = plan.get("targs") or {}
+    kw, expect_lock = {}, None
+    if targs.get("sequence"):
+        kw["sequence"] = Sequence.from_relative_blocks(targs["sequence"])
+        expect_lock = (0xB2, targs["sequence"])
+        tr.fault("timelocked_tree_sequence")
+    elif targs.get("locktime"):
+        kw["locktime"] = Locktime(targs["locktime"])
+        expect_lock = (0xB1, targs["locktime"])
+        tr.fault("timelocked_tree_locktime")
+    fn = targs.get("fn")
+    composite = fn in ("everything_tree", "musig_and_single_leaf_tree") and k >= 2  # the composite trees contain MuSig leaves: undefined for single keys
     for kind in kinds:
-        tree = trm.musig_tree() if kind == "musig" else trm.multi_leaf_tree()
+        if composite:
+            # composite trees: the n-of-n single leaf coincides with the only multisig leaf when k = n, and musig_and_single has no
+            # per-subset multisig leaves: ownership is asked for the MuSig leaves, and for multisig leaves of everything_tree when k < n
+            if kind == "multisig" and (fn != "everything_tree" or k == n):
+                continue
+            tree = getattr(trm, fn)(**kw)
+            tr.probe("composite_tree_" + fn)
+        else:
+            tree = trm.musig_tree(**kw) if kind == "musig" else trm.multi_leaf_tree(**kw)
         # the dealer goes on producing other trees from the SAME object (time-locked recovery variants, the other leaf kinds) before
         # anybody uses the first one: the first tree must stay the tree it was
         root0 = tree.hash()
         raws0 = [lf.tap_script.raw_serialize() for lf in tree.leaves()]
         for lt in plan.get("later", []):
             tr.fault("later_tree_" + lt["fn"])
-            kw = {}
+            lkw = {}
             if lt.get("sequence"):
-                kw["sequence"] = Sequence.from_relative_blocks(lt["sequence"])
+                lkw["sequence"] = Sequence.from_relative_blocks(lt["sequence"])
             elif lt.get("locktime"):
-                kw["locktime"] = Locktime(lt["locktime"])
+                lkw["locktime"] = Locktime(lt["locktime"])
             try:
-                other = getattr(trm, lt["fn"])(**kw)
+                other = getattr(trm, lt["fn"])(**lkw)
                 other.hash() if hasattr(other, "hash") else None
             except SimDeadlock:
                 raise
@@ -445,15 +510,15 @@ def run_tree(plan, tr):
         leaves = tree.leaves()
         tr.oracle("U5_count")
         tr.ev("dealer", "tree", f"{kind}|{k}of{n}|{len(leaves)}")
-        if len(leaves) != comb(n, k):
+        if not composite and len(leaves) != comb(n, k):
             fail("U5", f"leaf_count_{kind}", f"{kind} tree for {k}-of-{n} has {len(leaves)} leaves, expected C({n},{k}) = {comb(n, k)}")
         raws = [lf.tap_script.raw_serialize() for lf in leaves]
-        if len(set(raws)) != len(raws):
+        if not composite and len(set(raws)) != len(raws):
             fail("U5", f"duplicate_leaves_{kind}", f"{kind} tree for {k}-of-{n} contains duplicate leaf scripts")
         # the live subset builds its own script, listing its keys in its own order
         order = plan_rng(plan.get("order_seed", 0), "sub").sample(range(k), k)
         mine_pts = [sub_points[j] for j in order]
-        mine = MuSigTapScript(mine_pts) if kind == "musig" else MultiSigTapScript(mine_pts, k)
+        mine = MuSigTapScript(mine_pts, **kw) if kind == "musig" else MultiSigTapScript(mine_pts, k, **kw)
         hits = [lf for lf, raw in zip(leaves, raws) if raw == mine.raw_serialize()]
         tr.oracle("U5_owner")
         if len(hits) != 1:
@@ -462,7 +527,7 @@ def run_tree(plan, tr):
         if plan.get("all_subsets"):
             for comb_idx in combinations(range(n), k):
                 s_pts = [points[i] for i in comb_idx]
-                sc = (MuSigTapScript(s_pts) if kind == "musig" else MultiSigTapScript(s_pts, k)).raw_serialize()
+                sc = (MuSigTapScript(s_pts, **kw) if kind == "musig" else MultiSigTapScript(s_pts, k, **kw)).raw_serialize()
                 c = raws.count(sc)
                 tr.oracle("U5_owner")
                 if c != 1:
@@ -484,8 +549,15 @@ def run_tree(plan, tr):
         ti._value = plan["amount"]
         ti._script_pubkey = spk
         dest = Script.parse(BytesIO(tm.compact_size(22) + tm.spk_p2wpkh(bytes(20))))
-        tx = Tx(2, [ti], [TxOut(plan["amount"] - 500, ScriptPubKey.parse(BytesIO(tm.compact_size(22) + tm.spk_p2wpkh(bytes(20)))))], plan.get("locktime", 0), network="signet", segwit=True)
-        tr.probe("leaf_spends")
+        tx_locktime = plan.get("locktime", 0)
+        if "sequence" in kw:
+            # the coin has matured exactly: the input's relative lock is the leaf's
+            ti.sequence = kw["sequence"]
+        elif "locktime" in kw:
+            ti.sequence = Sequence(0xFFFFFFFE)
+            tx_locktime = targs["locktime"]
+        tx = Tx(2, [ti], [TxOut(plan["amount"] - 500, ScriptPubKey.parse(BytesIO(tm.compact_size(22) + tm.spk_p2wpkh(bytes(20)))))], tx_locktime, network="signet", segwit=True)
+        tr.probe("leaf_spends" + ("_timelocked" if kw else ""))
         if kind == "musig":
             ti.witness.items = [leaf.tap_script.raw_serialize(), cb.serialize()]
             sig_hash = tx.sig_hash(0, 0)
@@ -535,7 +607,7 @@ def run_tree(plan, tr):
                 ok = False
         tr.oracle("U5_spend")
         tr.ev("subset", "spend", f"{kind}|{bool(ok)}")
-        tr.state("tree", kind, n, k, bool(ok))
+        tr.state("tree", kind, n, k, bool(ok), fn, sorted(kw))
         out["results"].append((kind, bool(ok)))
         if not ok:
             fail("U5", f"leaf_spend_invalid_{kind}", f"a spend of the {kind} leaf owned by the {k}-subset {subset} of {n}, signed by that subset, does not verify")
@@ -543,7 +615,7 @@ def run_tree(plan, tr):
         # reference agreement
         mtx, _ = tm.parse_tx(tx.serialize(), strict=False)
         spent = [(plan["amount"], spk.raw_serialize())]
-        good, why = ref_check_script_path(mtx, spent, mtx["ins"][0]["witness"], kind)
+        good, why = ref_check_script_path(mtx, spent, mtx["ins"][0]["witness"], kind, expect_lock)
         tr.oracle("U5_ref")
         if not good:
             fail("U5", f"leaf_spend_rejected_by_reference_{kind}", f"library accepts the {kind} leaf spend but the reference script-path check fails at: {why}")
@@ -567,13 +639,33 @@ LATER_FNS = ["musig_tree", "musig_tree", "multi_leaf_tree", "single_leaf", "musi
 SESSION_FAULTS = ["drop_psig", "dup_psig", "corrupt_psig", "stale_psig", "corrupt_nonce", "crash", "add_zero_psig", "r_xonly"]
 
 
+LOCK_SEQUENCES = [1, 15, 16, 17, 127, 128, 144, 255, 256, 4032, 32767, 32768, 52560, 65535]
+LOCK_LOCKTIMES = [1, 16, 17, 127, 128, 255, 256, 32767, 32768, 65535, 65536, 500000, 0x7FFFFF, 0x800000, 0xFFFFFF, 0x1000000, 499999999, 500000000, 1700000000, 0x7FFFFFFF, 0x80000000, 0xFFFFFFFF]
+
+
+def gen_targs(ch):
+    """arguments of the tree the coins are sent to: plain (the usual case), time-locked, composite"""
+    if ch.chance(0.5):
+        return {}
+    t = {}
+    if ch.chance(0.4):
+        t["fn"] = ch.choice(["everything_tree", "musig_and_single_leaf_tree"])
+    r_ = ch.randrange(5)
+    if r_ < 2:
+        t["sequence"] = ch.choice(LOCK_SEQUENCES + [ch.randrange(1, 65536)])
+    elif r_ < 4:
+        t["locktime"] = ch.choice(LOCK_LOCKTIMES + [ch.randrange(1, 2**32)])
+    return t
+
+
 def generate(ch, tier, prop):
     if ch.chance(0.3):
         n = ch.choice([2, 2, 3, 3, 4, 5]) if tier == "thorough" else ch.choice([2, 2, 3, 3, 4])
         k = ch.randrange(1, n + 1)
         return {"mode": "tree", "n": n, "k": k, "keys": ch.sample(range(POOL), n), "subset": ch.sample(range(n), k), "order_seed": ch.randrange(1 << 30), "txid": ch.bytes(32).hex(), "vout": ch.randrange(4),
                 "amount": ch.choice([1000, 100000, 10**8]), "nonce": {"mode": "seeded", "seed": ch.randrange(1 << 30)}, "all_subsets": tier == "thorough" and ch.chance(0.5), "steps": [], "other_first": ch.chance(0.3),
-                "later": [] if ch.chance(0.5) else [dict({"fn": ch.choice(LATER_FNS)}, **ch.choice([{}, {"sequence": ch.choice([1, 144, 65535])}, {"locktime": ch.choice([1, 500000, 1700000000])}])) for _ in range(ch.randrange(1, 3))]}
+                "later": [] if ch.chance(0.5) else [dict({"fn": ch.choice(LATER_FNS)}, **ch.choice([{}, {"sequence": ch.choice([1, 144, 65535])}, {"locktime": ch.choice([1, 500000, 1700000000])}])) for _ in range(ch.randrange(1, 3))],
+                "targs": gen_targs(ch)}
     n = ch.choice([2, 2, 2, 3, 3, 4]) if tier == "quick" else ch.choice([2, 2, 3, 3, 4, 5])
     fault_free = ch.chance(0.35)
     enabled = [] if fault_free else [f for f in SESSION_FAULTS if ch.chance(0.4)]
@@ -629,6 +721,17 @@ def enumerate_plans(tier, prop, seed):
     for (k_, n_) in ((1, 2), (2, 3), (2, 4), (3, 4)):
         yield {"mode": "tree", "n": n_, "k": k_, "keys": r.sample(range(POOL), n_), "subset": r.sample(range(n_), k_), "order_seed": r.randrange(1 << 30), "txid": "33" * 32, "vout": 0, "amount": 100000,
                "nonce": {"mode": "seeded", "seed": r.randrange(1 << 30)}, "all_subsets": False, "steps": [], "other_first": True, "kind": "multisig", "enum": "other-first"}
+    # the coins' tree is a time-locked and/or composite variant: every tree function x (no lock, every width boundary of the script number)
+    fns = [None, "everything_tree", "musig_and_single_leaf_tree"]
+    locks = [{}] + [{"sequence": v} for v in LOCK_SEQUENCES] + [{"locktime": v} for v in LOCK_LOCKTIMES]
+    for li, lock in enumerate(locks):
+        for fi, fn in enumerate(fns):
+            if tier == "quick" and lock and (li + fi) % 3:
+                continue
+            if fn is None and not lock:
+                continue
+            yield {"mode": "tree", "n": 3, "k": 2, "keys": r.sample(range(POOL), 3), "subset": r.sample(range(3), 2), "order_seed": r.randrange(1 << 30), "txid": "44" * 32, "vout": 0, "amount": 100000,
+                   "nonce": {"mode": "seeded", "seed": r.randrange(1 << 30)}, "all_subsets": not lock, "steps": [], "targs": dict(lock, **({"fn": fn} if fn else {})), "enum": "timelocked-and-composite-trees"}
     # later trees from the same dealer object: every function x timelock argument, both leaf kinds
     for fn in sorted(set(LATER_FNS)):
         for arg in ({}, {"sequence": 144}, {"locktime": 500000}):
